@@ -160,6 +160,16 @@ ec_eval_even_strategy(ec_curve_t *image,
 void
 ec_eval_even(ec_curve_t *image, ec_isog_even_t *phi, ec_point_t *points, unsigned short length)
 {
+    // STRATEGY4 only has rows for the lengths POWER_OF_2 - rows + 1 .. POWER_OF_2, and the strategy routine
+    // does not handle a singular first step when it is also the last 4-isogeny (lengths 2, 3): every other
+    // length is evaluated with the naive chain
+    if (phi->length > TORSION_PLUS_EVEN_POWER ||
+        TORSION_PLUS_EVEN_POWER - phi->length >= sizeof(STRATEGY4) / sizeof(STRATEGY4[0])) {
+        ec_curve_t dom = phi->curve;
+        ec_eval_small_chain(&dom, &phi->kernel, phi->length, points, length);
+        *image = dom;
+        return;
+    }
     ec_curve_normalize_A24(&phi->curve);
     ec_eval_even_strategy(image, points, length, &phi->curve.A24, &phi->kernel, phi->length);
 }
